@@ -750,6 +750,19 @@ class Model(Object):
                     model_metabolite._reaction.add(reaction)
                     if context:
                         context(partial(model_metabolite._reaction.remove, reaction))
+                        if model_metabolite is not metabolite:
+
+                            def restore_metabolite(
+                                reaction=reaction,
+                                old=metabolite,
+                                new=model_metabolite,
+                            ):
+                                # point the reaction back at its own metabolite
+                                reaction._metabolites[old] = reaction._metabolites.pop(
+                                    new
+                                )
+
+                            context(restore_metabolite)
             reaction.update_genes_from_gpr()
 
         self.reactions += pruned
